@@ -355,6 +355,19 @@ where
     fill(res.raw_mut(), &mut rng, res_cls, mr);
     let mut sc: ScalarZnx<Vec<u8>> = ScalarZnx::alloc(n, cols);
     fill(sc.raw_mut(), &mut rng, p.vb, p.mb);
+    // `widths=1`: no operation, only the histogram of the two's-complement widths (1..=64 bits) of every operand digit this request
+    // would feed to the back end (a, b, the scalar / constant vector), in buckets <=16, 17..32, 33..48, 49..63, 64
+    if r.usize("widths") == 1 {
+        let mut h = [0u64; 5];
+        let mut put = |x: i64| {
+            let w = 65 - (if x < 0 { !x } else { x }).leading_zeros() as usize; // sign bit included
+            h[if w <= 16 { 0 } else if w <= 32 { 1 } else if w <= 48 { 2 } else if w <= 63 { 3 } else { 4 }] += 1;
+        };
+        a.raw().iter().for_each(|x| put(*x));
+        b.raw().iter().for_each(|x| put(*x));
+        sc.raw().iter().for_each(|x| put(*x));
+        return format!("{},{},{},{},{}", h[0], h[1], h[2], h[3], h[4]);
+    }
     let mut pre = String::new();
     if p.dump {
         pre = format!("a={} b={} res0={} sc={} => ", flat(&a), flat(&b), flat(&res), show(sc.raw()));
@@ -638,6 +651,16 @@ where
             module.vec_znx_dft_apply(1, 0, d, i, &g, i);
         }
     };
+    if op == "cnv_by_const_apply" {
+        // an integer kernel on every back end (FFT64: wrapping i64, NTT120: exact i128): no transform of the operands, so that
+        // full-range digits never meet the |x| < 2^50 conversion assertion of the floating-point path
+        let cnv_offset = r.usize("co");
+        let bc: Vec<i64> = (0..p.sb).map(|_| rng.val(p.vb, p.mb)).collect();
+        let mut bg: BigO<BE> = module.vec_znx_big_alloc(1, p.sr);
+        module.cnv_by_const_apply(cnv_offset, &mut bg, 0, a, c, &bc, scratch.borrow());
+        let pre = if p.dump { format!("bconst={} => ", show(&bc)) } else { String::new() };
+        return pre + &read_big(module, &bg, 1, p.sr, p.b, scratch);
+    }
     let mut a_dft: DftO<BE> = module.vec_znx_dft_alloc(cols, p.sa);
     let mut b_dft: DftO<BE> = module.vec_znx_dft_alloc(cols, p.sb);
     let mut r_dft: DftO<BE> = module.vec_znx_dft_alloc(cols, p.sr);
@@ -752,13 +775,6 @@ where
         }
         "cnv_apply_dft" | "cnv_pairwise_apply_dft" | "cnv_self_apply_dft" | "cnv_by_const_apply" => {
             let cnv_offset = r.usize("co");
-            if op == "cnv_by_const_apply" {
-                let bc: Vec<i64> = (0..p.sb).map(|_| rng.val(p.vb, p.mb)).collect();
-                let mut bg: BigO<BE> = module.vec_znx_big_alloc(1, p.sr);
-                module.cnv_by_const_apply(cnv_offset, &mut bg, 0, a, c, &bc, scratch.borrow());
-                let pre = if p.dump { format!("bconst={} => ", show(&bc)) } else { String::new() };
-                return pre + &read_big(module, &bg, 1, p.sr, p.b, scratch);
-            }
             let mask: i64 = if r.get("mask").is_some() { r.i64("mask") } else { !0i64 };
             let mut lp: CnvPVecL<DeviceBuf<BE>, BE> = module.cnv_pvec_left_alloc(cols, p.sa);
             let mut rp: CnvPVecR<DeviceBuf<BE>, BE> = module.cnv_pvec_right_alloc(cols, p.sb);
